@@ -2,6 +2,7 @@
 from __future__ import annotations
 
 import json
+import os
 import time
 
 from . import tlc, explore, structural as ST, world as W, probes as P, checks_query as Q
@@ -94,6 +95,14 @@ def replay_file(path, wd):
     with open(path) as f:
         rp = json.load(f)
     consts = {k: (set(v) if isinstance(v, list) and k in ("Kinds", "Fams", "OnlyOps") else v) for k, v in rp["consts"].items()}
+    if rp["kind"] == "cache-fresh":
+        run = Run("C05", "quick", 0)
+        fresh_stage(run, wd, "thorough", only=rp["history"])
+        if run.violations:
+            print(f"VIOLATION property=C05 replay={path}  # reproduced: {run.violations[0]['what'][:300]}")
+            return 1
+        print(f"replay of {path}: property C05 holds on the current tree")
+        return 0
     if rp["kind"] == "cache":
         explore._G.update({"consts": consts, "init": ST.base_state(consts), "vcls": P.VERTEX_CLASSES["Vertex"]})
         pre, c, res, post, probes, variant = explore._run_cached(rp["path"], rp["call"], {"spec": rp["spec"], "variant": rp["variant"]})
@@ -151,6 +160,7 @@ def c05(tier, seed, wd, replay=None):
     run_cached_config(run, bc[0], bc[1], wd, spec, "sampled" if tier == "quick" else "on", builders=True)
     from . import cache_traces as CT
     CT.check(run, wd, tier, seed)
+    fresh_stage(run, wd, tier)
     run.exhaustive = True
     run.assumptions = ASSUME
     mandatory = [lambda c: c.startswith("setv:") and "|on" in c,
@@ -159,8 +169,62 @@ def c05(tier, seed, wd, replay=None):
                  lambda c: c.startswith("lunl:") and "|on" in c,
                  lambda c: c.startswith("ladd:"),
                  lambda c: c.startswith("unlink:"),
+                 lambda c: c.startswith("fresh-interpreter:") and "mutate-first" in c,
                  lambda c: c.startswith("trace:toggle"), lambda c: c.startswith("loaddict"), lambda c: c.startswith("loadmat")]
     return run.finish(nontrivial_filter=lambda c: True, mandatory=mandatory)
+
+
+def C(op, k, *a):
+    return {"op": op, "k": k, "a": list(a), "b": []}
+
+
+FRESH = [  # (calls that build the graph here, calls made on the copy in the fresh interpreter)
+    ([C("new", "D", 1, 2), C("new", "U", 2, 3)], [C("setv", "", 1, 2, 3)]),
+    ([C("new", "D", 1, 2), C("new", "D", 2, 1)], [C("unlink", "", 1, 2, 1)]),
+    ([C("new", "D", 1, 2), C("new", "T", 2, 3)], [C("new", "D", 3, 1)]),
+    ([C("new", "U", 1, 1), C("new", "D", 1, 2)], [C("setv", "", 2, 1, 3), C("setv", "", 1, 2, 2)]),
+    ([C("linkd", "", 1, 2, 0), C("linku", "", 2, 3, 0)], [C("linkd", "", 3, 1, 0), C("unlink", "", 2, 3, 0)]),
+    ([C("new", "D", 1, 2), C("new", "D", 1, 3), C("new", "D", 1, 2)], [C("lunl", "", 2, 3), C("ladd", "", 2, 2)]),
+]
+
+
+def fresh_stage(run, wd, tier, only=None):
+    """(4) 'whether the graph was built in this interpreter or un-pickled into a fresh one': graphs with WARM memos are
+    dumped with nrpickler, loaded in a new interpreter with the flag on and - every other run - MUTATED BEFORE THE FIRST
+    QUERY there; all answers afterwards are judged against the operators on the copy's own projection."""
+    from . import pickle_exec as PX, checks_pickle as CP, checks_query as Q, render_exec  # noqa: F401 (render_exec registers the mixed vertex pool)
+    from edgegraph.structure import Vertex
+    consts = ST.cfg("fresh-3x3", NV=3, InitBV=3, NL=3, Kinds={"D", "U", "T"}, MaxEnds=3)[1]
+    recs, owner = [], {}
+    flag = Vertex.NEIGHBOR_CACHING
+    try:
+        for hi, (path, calls) in enumerate(FRESH):
+            if only is not None and hi != only:
+                continue
+            for qf in ((False, True) if tier == "thorough" or hi % 3 == 0 else (False,)):
+                loader, proto = ("pickle", "dill")[hi % 2], (2, 4, 5)[hi % 3]
+                w = CP.build(consts, path, True)
+                P.run(w, w.project(), {"kind": "C05", "full": False, "nofilter": True})       # warm every memo
+                out = PX.roundtrip_fresh(w, proto, loader, True, calls, wd, f"c05-{os.getpid()}-{hi}-{int(qf)}", query_first=qf)
+                cls = f"fresh-interpreter:{loader},proto{proto},{'query-first' if qf else 'mutate-first'}"
+                run.count_class(cls)
+                rp = {"kind": "cache-fresh", "consts": {k: (sorted(x) if isinstance(x, set) else x) for k, x in consts.items()},
+                      "history": hi, "query_first": qf}
+                if out.get("err"):
+                    run.violation(f"{cls}|{out['err']}", f"using the un-pickled copy in a fresh interpreter raised {out['err']}: {out.get('trace', '')[-200:]}", rp)
+                    continue
+                for S, probes in ((out["post"], out["probes_before"]), (out["state_after"], out["probes_after"])):
+                    if probes:
+                        S = {k: v for k, v in S.items() if k != "decor"}
+                        recs.append({"id": len(recs) + 1, "S": S, "probes": probes})
+                        owner[len(recs)] = (cls, rp)
+    finally:
+        Vertex.NEIGHBOR_CACHING = flag
+    for v in Q.judge("C05", consts, recs, wd, "fresh", shards=1):
+        cls, rp = owner[v["id"]]
+        run.violation(f"{cls}|stale", f"cached query on a copy un-pickled into a fresh interpreter deviates: {json.dumps(v)[:300]}", rp)
+    run.traces += len(recs)
+    run.extra["fresh_interpreter_runs"] = len(owner)
 
 
 CHECKS = {"C05": c05}
